@@ -51,9 +51,10 @@ func init() {
 	var cuts []string
 	h1 := without(alpha.H1, "<=")
 	fw.Register(&fw.Check{
-		ID:        "C15",
-		QuickS:    45,
-		ThoroughS: 600,
+		ID:              "C15",
+		PanicOutOfScope: true,
+		QuickS:          45,
+		ThoroughS:       600,
 		Rule: "every string over (H1 minus '<','=')^<=5 (quick) / <=6 (thorough), over the fragment alphabet minus atoms with those bytes plus encoded forms (&#60; &#61; javascript: on* href style ...), " +
 			"and every fixture cut with both bytes deleted: IsXSS must be false; non-trivial = the unquoted context produced at least one token",
 		Assumptions: []string{"nothing beyond the enumerated alphabets/levels is claimed"},
